@@ -139,7 +139,7 @@ TFetch ==
 \* "late": the importer starts only when everything else has come to rest (a slow importer): fetch and decode first, the
 \* handler moves when the decoder cannot and no further answer of the peer is recorded before the end of the case
 NextIsEnd == l <= Len(Trace) /\ Trace[l].e = "BEnd"
-LateSilent == \/ (~IsEvent("Fetch") \/ Len(rawQ) >= RawCap) /\ (DecTake \/ DecBlock \/ DecDone)    \* answers first, one order only
+LateSilent == \/ (~IsEvent("Fetch") \/ Len(rawQ) > RawCap) /\ (DecTake \/ DecBlock \/ DecDone)    \* answers first, one order only
               \/ ~DecCanMove /\ NextIsEnd /\ Handle
               \/ Finish
 TBSilent ==
